@@ -29,6 +29,7 @@ type cfg struct {
 	Cancel bool     // a thread cancels the connection context
 	Spawn  bool     // alwaysSpawnGoroutine
 	Deep   int      // deviation bound for this item in every tier (0 = the tier's bound)
+	Chain  []string // data changes applied one at a time by the main thread, each after the system has settled
 }
 
 func (c cfg) name() string {
@@ -36,10 +37,14 @@ func (c cfg) name() string {
 }
 
 func (c cfg) deep() string {
-	if c.Deep == 0 {
-		return ""
+	s := ""
+	if c.Deep != 0 {
+		s += fmt.Sprintf(" deep=%d", c.Deep)
 	}
-	return fmt.Sprintf(" deep=%d", c.Deep)
+	if len(c.Chain) > 0 {
+		s += " chain=" + strings.Join(c.Chain, ",")
+	}
+	return s
 }
 
 func parse(s string) cfg {
@@ -69,6 +74,8 @@ func parse(s string) cfg {
 			fmt.Sscan(kv[1], &c.Spawn)
 		case "deep":
 			fmt.Sscan(kv[1], &c.Deep)
+		case "chain":
+			c.Chain = list()
 		}
 	}
 	return c
@@ -186,6 +193,11 @@ func item(c cfg, oracle string) *explore.Item {
 			rt.Go(func() { cancel() })
 		}
 		rt.QuiesceWithin(time.Minute)
+		// a chained history: each change lands on a settled system (runs complete, caches cleaned, resources released)
+		for _, e := range c.Chain {
+			w.apply(changeIndex(e))
+			rt.QuiesceWithin(time.Minute)
+		}
 
 		// ---------- client model: fold the event log ----------
 		subs := map[string]*sub{}
@@ -444,6 +456,14 @@ func c02configs(tier string) []cfg {
 		cfg{Client: []string{"S:a:flag"}, Env: []string{"flag++"}, Spawn: true},
 		cfg{Client: []string{"S:a:slow", "U:a", "S:a:slow"}, Env: []string{"flag++"}},
 		cfg{Client: []string{"S:a:slow"}, Env: []string{"flag++", "flag++"}},
+		// an Expensive field on long-lived objects: cached across re-runs, dropped with the element, needed again later
+		cfg{Client: []string{"S:a:people"}, Env: []string{"p-score"}},
+		cfg{Client: []string{"S:a:people"}, Env: []string{"p-remove", "p-score1"}},
+		cfg{Client: []string{"S:a:people"}, Chain: []string{"p-remove", "p-score", "p-add"}},
+		cfg{Client: []string{"S:a:people"}, Chain: []string{"p-remove", "p-add"}, Env: []string{"p-score"}},
+		cfg{Client: []string{"S:a:people"}, Chain: []string{"p-score1", "p-remove", "p-score", "p-add", "p-score"}},
+		cfg{Client: []string{"S:a:items"}, Chain: []string{"delete", "insert", "edit", "reorder"}},
+		cfg{Client: []string{"S:a:thing", "S:b:maybe"}, Chain: []string{"union-null", "maybe-toggle", "union-null", "maybe-toggle"}},
 	)
 	if tier == "thorough" {
 		for _, q := range qs {
